@@ -57,6 +57,9 @@ var plainKey = func(s string) bool {
 }
 
 func yamlKey(s string) string {
+	if s == "<<" {
+		return s // the merge key is a plain scalar
+	}
 	if plainKey(s) {
 		return s
 	}
